@@ -28,9 +28,16 @@ TriplesOf(D, g) == { <<q[1], q[2], q[3]>> : q \in {qq \in D : qq[4] = g} }
 GraphNames(D) == { q[4] : q \in {qq \in D : qq[4] # DG} }
 \* ---- basic graph patterns ----
 KeyOf(pt) == IF "var" \in DOMAIN pt THEN <<"v", pt.var>> ELSE <<"b", pt.bn>>
-\* match one pattern position against a term under mu; returns [ok, mu]
+\* match one pattern position against a term under mu; returns [ok, mu].  A position is a constant term, a variable, a blank-node
+\* placeholder, or a quoted-triple pattern [qt |-> <<s, p, o>>] (SPARQL-star): it matches a quoted triple whose components match,
+\* the variables and placeholders inside being those of the group
+RECURSIVE MatchPos(_, _, _)
 MatchPos(pt, t, mu) ==
   IF "term" \in DOMAIN pt THEN [ok |-> pt.term = t, mu |-> mu]
+  ELSE IF "qt" \in DOMAIN pt THEN
+       IF t.k # "triple" THEN [ok |-> FALSE, mu |-> mu]
+       ELSE LET a == MatchPos(pt.qt[1], t.s, mu) IN IF ~a.ok THEN a ELSE
+            LET b == MatchPos(pt.qt[2], t.p, a.mu) IN IF ~b.ok THEN b ELSE MatchPos(pt.qt[3], t.o, b.mu)
   ELSE LET k == KeyOf(pt) IN
        IF k \in DOMAIN mu THEN [ok |-> mu[k] = t, mu |-> mu] ELSE [ok |-> TRUE, mu |-> Ext(mu, k, t)]
 MatchTp(tp, t, mu) == LET a == MatchPos(tp[1], t[1], mu) IN IF ~a.ok THEN a ELSE
@@ -190,7 +197,8 @@ Answer(P, D) == Eval(P, D, << >>, DG)
 RowOf(mu, vars) == [j \in 1..Len(vars) |-> IF <<"v", vars[j]>> \in DOMAIN mu THEN mu[<<"v", vars[j]>>] ELSE [k |-> "unbound"]]
 BagOfSeq(s) == [x \in {s[i] : i \in 1..Len(s)} |-> Cardinality({i \in 1..Len(s) : s[i] = x})]
 \* ---- variables in scope (SPARQL 1.1 section 18.2.1), and the "variable already in scope" error of Extend ----
-PosVars(pt) == IF "var" \in DOMAIN pt THEN {pt.var} ELSE {}
+RECURSIVE PosVars(_)
+PosVars(pt) == IF "var" \in DOMAIN pt THEN {pt.var} ELSE IF "qt" \in DOMAIN pt THEN PosVars(pt.qt[1]) \cup PosVars(pt.qt[2]) \cup PosVars(pt.qt[3]) ELSE {}
 RECURSIVE InScope(_)
 InScope(P) ==
   CASE P.op = "bgp"    -> UNION {PosVars(P.tps[i][1]) \cup PosVars(P.tps[i][2]) \cup PosVars(P.tps[i][3]) : i \in 1..Len(P.tps)}
